@@ -565,7 +565,14 @@ func sprintCorpus() []*sprintInput {
 	wrong.Groups = []int{0, 4, 2} // stored membership wrong: in Q2 (name = bob) and Q0 (last seen) without qualifying
 	refreshed := &contactSpec{Name: "Bob", Lang: "fra", Status: "active", Groups: []int{1}, Fields: map[string]string{}, URNs: []string{"telegram:12345"}}
 	blocked := &contactSpec{Name: "Bob", Lang: "fra", Status: "blocked", Groups: []int{1, 4}, Fields: map[string]string{}}
+	seenUni := &uniSpec{MaxChars: 640, UseLoc: true, Groups: []groupSpec{{Name: "S0"},
+		{Name: "Seen", Query: `last_seen_on != ""`, Coq: "QLastSeenSet"}, {Name: "Never seen", Query: `last_seen_on = ""`, Coq: "QLastSeenUnset"}}}
+	neverSeen := &contactSpec{Name: "Jim", Lang: "eng", Status: "active", Groups: []int{0, 2}, Fields: map[string]string{}}
 	return []*sprintInput{
+		// a contact never seen before, manual trigger, wait, plain msg resume (no refreshed contact), no action at all:
+		// last_seen_on is set by the resume, so the contact must move from "Never seen" to "Seen"
+		{Universe: seenUni, Contact: neverSeen, Trigger: "manual", Nodes: []nodeSpec{{Wait: "msg"}, {}}, Resumes: []resumeSpec{{Kind: "msg"}}},
+		{Universe: seenUni, Contact: neverSeen, Trigger: "manual", Nodes: []nodeSpec{{Wait: "msg_timeout"}, {Wait: "msg"}}, Resumes: []resumeSpec{{Kind: "timeout"}, {Kind: "msg"}}},
 		{Universe: uni, Contact: jim(), Trigger: "msg", Nodes: []nodeSpec{{Wait: "msg"}}, Resumes: []resumeSpec{{Kind: "msg"}}},
 		{Universe: uni, Contact: jim(), Trigger: "msg", Nodes: []nodeSpec{{Actions: []*modSpec{{Kind: "name", Text: "Bob"}}}}},
 		{Universe: uni, Contact: jim(), Trigger: "msg", Nodes: nil},
